@@ -89,6 +89,24 @@ class SimLoop(base_events.BaseEventLoop):
     def _write_to_self(self):
         self._wake = True
 
+    def run_in_executor(self, executor, func, *args):
+        # asyncio.to_thread() / run_in_executor(None, ...): the loop's default executor is created inside asyncio, out of
+        # reach of the module seams; give the loop a pool of sim threads instead of real, unscheduled ones
+        if executor is None:
+            self._check_closed()
+            if self._default_executor is None:
+                from .shims import SimPool
+                self._default_executor = SimPool(32)
+            executor = self._default_executor
+        return super().run_in_executor(executor, func, *args)
+
+    async def shutdown_default_executor(self, timeout=None):
+        # asyncio does this from a real helper thread; here the pool's workers are sim threads, so wait for them in place
+        self._executor_shutdown_called = True
+        ex = self._default_executor
+        if ex is not None:
+            ex.shutdown(wait=True)
+
     def run_forever(self):
         me = self._sim.me()
         if self.is_running() or self.is_closed() or asyncio._get_running_loop() is not None:
